@@ -125,11 +125,14 @@ def _creator_const(prog, info, field):
     return vals, where
 
 
-def r_param(ctx, prog, codecs=(1, 2, 3)):
+def r_param(ctx, prog, codecs=(1, 2, 3), only=None):
     R = 'R-PARAM'
+    real_ctx = ctx
+    if only is not None:
+        ctx = _Filter(real_ctx, only)
     ctx.rule(R, 'whenever of_set_fec_parameters returns OK the dominating guards imply 1 <= k <= MAX_K, n-k >= 1, k + (n-k) <= MAX_N '
              'without wrap-around, symbol length >= 1, and per codec m in {4,8}, 3 <= N1 <= n-k, seed in 1..2^31-2 (MAX_K/MAX_N being '
-             'the fields OF_CTRL_GET_MAX_K/N report)', floor=15)
+             'the fields OF_CTRL_GET_MAX_K/N report)', floor=1)
     out = {}
     for c in codecs:
         info = CODECS[c]
@@ -199,6 +202,21 @@ def r_param(ctx, prog, codecs=(1, 2, 3)):
                          '%s accepts PRNG seeds in [%d, %d]; RFC 5170 seeds are 1..2147483646 (others are silently ignored by '
                          'of_rfc5170_srand, so the matrix depends on earlier sessions)' % (name, lo, min(hi, 1 << 32)))
     return out
+
+
+class _Filter(object):
+    """forwards only the instances whose key ends with one of the selected clauses"""
+
+    def __init__(self, ctx, only):
+        self._c = ctx
+        self._only = only
+
+    def instance(self, rule, ok, where, key, msg=None):
+        if any(key.endswith(o) for o in self._only):
+            self._c.instance(rule, ok, where, key, msg)
+
+    def __getattr__(self, n):
+        return getattr(self._c, n)
 
 
 def _field_value(prog, f, tt, struct, field):
